@@ -73,6 +73,11 @@ theorem updateZeros_sha3 (c : Sha3.Ctx) (n : Nat) : Sha3.updateZeros c n = Sha3.
 theorem updateZeros_gost (c : Gost.Ctx) (n : Nat) : Gost.updateZeros c n = Gost.update c (List.replicate n 0) :=
   Gost.updateZeros_eq c n
 
+/-- … and so does `updz` through the dispatcher, for every algorithm of this family -/
+theorem updz_is_update {A : Impl} (hA : ∀ c n, A.updateZeros c n = A.update c (List.replicate n 0)) (h : Hash A) (n : Nat) :
+    h.updateZeros n = h.update (List.replicate n 0) := by
+  simp only [Hash.updateZeros, Hash.update, List.length_replicate, hA]
+
 /-! ## (b) histories through the dispatcher -/
 
 def sha3OK (R d : Nat) : ImplOK (sha3Impl R d) where
